@@ -119,6 +119,33 @@ def rule_y3(chk: Check, ix: Index):
                 "a missing start/end must default to the start/end of the same diagnosed token")
 
 
+def rule_y3b(chk: Check, ix: Index):
+    """The line cache maps a line number to the text of that very line: the only writes are
+    `self._lines[tok.start[0]] = tok.line`, first writer wins."""
+    writes = []
+    for q, f in sorted(ix.funcs.items()):
+        if f.cls != "Tokenizer" or f.node.name == "__init__":
+            continue
+        for n in own_nodes(f.node):
+            if isinstance(n, ast.Assign) and any(isinstance(t, ast.Subscript) and norm_stmt(t.value) == "self._lines" for t in n.targets):
+                writes.append((f, n, norm_stmt(n.targets[0].slice), norm_stmt(n.value)))
+            if isinstance(n, ast.Call) and isinstance(n.func, ast.Attribute) and norm_stmt(n.func.value) == "self._lines" \
+                    and n.func.attr in ("setdefault", "update", "__setitem__"):
+                writes.append((f, n, norm_stmt(n.args[0]) if n.args else "?", norm_stmt(n.args[1]) if len(n.args) > 1 else "?"))
+    chk.count("Y3-line-cache")
+    if not writes:
+        chk.fail("Y3-line-cache", "Tokenizer:_lines-writes", repo.TOKENIZER, "the line cache is never filled")
+        return
+    for f, n, k, v in writes:
+        chk.count("Y3-line-cache")
+        import re as _re
+        m = _re.fullmatch(r"(\w+)\.start\[0\]", k)
+        ok = bool(m) and v == f"{m.group(1)}.line"
+        chk.require(ok, "Y3-line-cache", f"{f.qual}:{norm_stmt(n)[:60]}", f"{f.rel}:{n.lineno}",
+                    f"the cache entry for line `{k}` is filled with `{v}`; only `tok.line` stored under `tok.start[0]` is known to be the "
+                    f"text of that line (a multi-line token's `line` is not aligned with the lines it spans)")
+
+
 def _pos_source(e: ast.expr) -> Optional[tuple[str, str]]:
     """(object, 'start'|'end') for `x.start`, `x.end`, `(x.lineno, x.col_offset)`, `(x.end_lineno or 0, x.end_col_offset or 0)`."""
     if isinstance(e, ast.Attribute) and e.attr in ("start", "end"):
@@ -197,6 +224,7 @@ def run(chk: Check):
     rule_y1(chk, ix)
     rule_y2(chk, ix)
     rule_y3(chk, ix)
+    rule_y3b(chk, ix)
     rule_y4(chk, ix)
     rule_y5(chk, repo.ir_x())
     chk.units["functions"] = len(ix.funcs)
